@@ -69,7 +69,7 @@ func allPerms(n int) [][]int {
 func selectorEngine(w *run.Worker) {
 	// quick: 4000 maps; thorough: 200000 maps (x ~300 hashes each).
 	w.Cases("selector", w.N(4000, 200000), func(c *run.Case) {
-		r := caseRng(w, c)
+		r := c.Rng
 		// Shape of the case.
 		tieCase := r.Chance(1, 3)
 		var n int
